@@ -52,3 +52,23 @@ Example C17_nonvacuous :
   let h := repeat DrawSend 3 ++ repeat Draw (Z.to_nat 65530) ++ [DrawSend; Draw; Draw; DrawSend; DrawSend] in
   C17_guard h = false /\ sent_counts h seq_init = [1; 2; 3; 65534; 2; 3].
 Proof. vm_compute. split; reflexivity. Qed.
+
+(* stronger than the statement: the counts of ANY set of messages whose draw indices lie within one
+   period (65535 consecutive draws) are pairwise distinct — a target that remembers more than the
+   last count (any duplicate-detection window shorter than the period) never sees a false duplicate;
+   and the period is exact (the bound cannot be improved) *)
+Theorem C17_window_distinct : forall idx : list nat,
+  NoDup idx ->
+  (forall i j, In i idx -> In j idx -> Z.abs (Z.of_nat i - Z.of_nat j) < PERIOD) ->
+  NoDup (counts_of idx).
+Proof. exact window_NoDup. Qed.
+Print Assumptions C17_window_distinct.
+
+Theorem C17_period_exact : forall i : nat, nth_yield (i + Z.to_nat PERIOD) seq_init = nth_yield i seq_init.
+Proof. exact period_exact. Qed.
+Print Assumptions C17_period_exact.
+
+(* the first 65535 counts on a connection are 1, 2, ..., 65535 in order *)
+Theorem C17_first_period : forall k : nat, Z.of_nat k < PERIOD -> nth_yield k seq_init = SEQ_START + Z.of_nat k.
+Proof. exact first_period_counts. Qed.
+Print Assumptions C17_first_period.
